@@ -330,16 +330,23 @@ func (k probeKey) method() string {
 	return fmt.Sprintf("q_%s_%s_%s_%s", k.kind, n, k.recv, k.mod)
 }
 
-// script renders the whole matrix of one shape (or only the cells in `only`).
-func (f *fixture) script(cells []cell) string {
-	var sb strings.Builder
-	sb.WriteString("<?php\n")
+// declare renders the class fixture with the probe methods the given cells need, the plain-function
+// probes, and (hist mode) the top-level closures of the `outside` sites. In hist mode every probe takes a
+// second parameter `$w`, the value a write probe stores (so that repeated writes are distinguishable).
+func (f *fixture) declare(sb *strings.Builder, cells []cell, hist bool) {
+	params, bodyOf := "$o", func(c cell) string { return c.Probe.Body(f, c.Probe.Recv, c.Mod) }
+	if hist {
+		params = "$o, $w"
+		bodyOf = func(c cell) string {
+			return strings.Replace(c.Probe.Body(f, c.Probe.Recv, c.Mod), "= 2;", "= $w;", 1)
+		}
+	}
 	// collect probe methods per class
 	per := map[string][]string{} // lex role -> method sources
 	seen := map[probeKey]bool{}
-	var funcs []string
+	var funcs, closures []string
 	for _, c := range cells {
-		if c.Site.Kind == "outside" {
+		if c.Site.Kind == "outside" && !hist {
 			continue
 		}
 		k := probeKey{c.Site.Lex, c.Site.Kind, c.Probe.Name, c.Probe.Recv, c.Mod}
@@ -347,16 +354,18 @@ func (f *fixture) script(cells []cell) string {
 			continue
 		}
 		seen[k] = true
-		body := c.Probe.Body(f, c.Probe.Recv, c.Mod)
+		body := bodyOf(c)
 		switch c.Site.Kind {
+		case "outside":
+			closures = append(closures, fmt.Sprintf("$h_%s = function(%s) { %s };\n", k.method(), params, body))
 		case "func":
-			funcs = append(funcs, fmt.Sprintf("function %s%s($o) { %s }\n", k.method(), f.sh.Tag, body))
+			funcs = append(funcs, fmt.Sprintf("function %s%s(%s) { %s }\n", k.method(), f.sh.Tag, params, body))
 		case "inst":
-			per[c.Site.Lex] = append(per[c.Site.Lex], fmt.Sprintf("  public function %s($o) { %s }\n", k.method(), body))
+			per[c.Site.Lex] = append(per[c.Site.Lex], fmt.Sprintf("  public function %s(%s) { %s }\n", k.method(), params, body))
 		case "closure":
-			per[c.Site.Lex] = append(per[c.Site.Lex], fmt.Sprintf("  public function %s($o) { $f = function() use ($o) { %s }; return $f(); }\n", k.method(), body))
+			per[c.Site.Lex] = append(per[c.Site.Lex], fmt.Sprintf("  public function %s(%s) { $f = function() use (%s) { %s }; return $f(); }\n", k.method(), params, params, body))
 		case "static":
-			per[c.Site.Lex] = append(per[c.Site.Lex], fmt.Sprintf("  public static function %s($o) { %s }\n", k.method(), body))
+			per[c.Site.Lex] = append(per[c.Site.Lex], fmt.Sprintf("  public static function %s(%s) { %s }\n", k.method(), params, body))
 		}
 	}
 	dn := f.n("D")
@@ -366,13 +375,13 @@ func (f *fixture) script(cells []cell) string {
 		if f.parent[i] >= 0 {
 			ext = " extends " + f.names[f.parent[i]]
 		}
-		fmt.Fprintf(&sb, "class %s%s {\n", name, ext)
+		fmt.Fprintf(sb, "class %s%s {\n", name, ext)
 		if i == f.id["D"] {
 			for _, m := range mods {
-				fmt.Fprintf(&sb, "  %s $p_%s = 1;\n", modKw[m], m)
-				fmt.Fprintf(&sb, "  %s static $sp_%s = 1;\n", modKw[m], m)
-				fmt.Fprintf(&sb, "  %s function m_%s() { $this->cnt = $this->cnt + 1; return 7; }\n", modKw[m], m)
-				fmt.Fprintf(&sb, "  %s static function sm_%s() { %s::$scnt = %s::$scnt + 1; return 8; }\n", modKw[m], m, dn, dn)
+				fmt.Fprintf(sb, "  %s $p_%s = 1;\n", modKw[m], m)
+				fmt.Fprintf(sb, "  %s static $sp_%s = 1;\n", modKw[m], m)
+				fmt.Fprintf(sb, "  %s function m_%s() { $this->cnt = $this->cnt + 1; return 7; }\n", modKw[m], m)
+				fmt.Fprintf(sb, "  %s static function sm_%s() { %s::$scnt = %s::$scnt + 1; return 8; }\n", modKw[m], m, dn, dn)
 			}
 			sb.WriteString("  public $cnt = 0;\n  public static $scnt = 0;\n")
 			sb.WriteString("  public function obs() { return $this->p_pub . \",\" . $this->p_prot . \",\" . $this->p_priv . \",\" . $this->cnt; }\n")
@@ -391,6 +400,17 @@ func (f *fixture) script(cells []cell) string {
 	for _, fn := range funcs {
 		sb.WriteString(fn)
 	}
+	for _, cl := range closures {
+		sb.WriteString(cl)
+	}
+}
+
+// script renders the whole matrix of one shape (or only the cells in `only`).
+func (f *fixture) script(cells []cell) string {
+	var sb strings.Builder
+	sb.WriteString("<?php\n")
+	f.declare(&sb, cells, false)
+	dn := f.n("D")
 	fmt.Fprintf(&sb, "function cell%s($id, $f, $o) {\n  try { $v = $f(); $r = \"ok\"; } catch (\\Throwable $e) { $r = \"denied=\" . get_class($e); }\n  echo \"\\n#\", $id, \":\", $r, \":\", $o->obs(), \":\", %s::sobs(), \"\\n\";\n  %s::sreset();\n}\n", f.sh.Tag, dn, dn)
 	for _, c := range cells {
 		objRole := c.Obj
